@@ -425,9 +425,17 @@ func ruleR12_9(w *World, r *Report) {
 				}
 				n++
 				bounded := false
-				if ex, ok := stripIface(a).(*ssa.Extract); ok && ex.Index == 0 {
-					if call, isCall := ex.Tuple.(*ssa.Call); isCall && (calleeName(call) == "WithTimeout" || calleeName(call) == "WithDeadline") {
-						bounded = true
+				vals := resolvePhis(stripIface(a)) // through a new helper that builds the lease context
+				for _, v := range vals {
+					ok1 := false
+					if ex, ok := stripIface(v).(*ssa.Extract); ok && ex.Index == 0 {
+						if call, isCall := ex.Tuple.(*ssa.Call); isCall && (calleeName(call) == "WithTimeout" || calleeName(call) == "WithDeadline") {
+							ok1 = true
+						}
+					}
+					bounded = ok1
+					if !ok1 {
+						break
 					}
 				}
 				r.Check(bounded, fnName(fn)+"/bounded wait", u.Pos(c.Pos()), "waits on the WithTimeout context", "the acquire "+calleeName(c)+" waits on "+canonName(a)+", not on the context derived with the lease time: a request whose own context has no deadline waits for a stuck holder for ever (every request returns: C12, C16)")
@@ -806,6 +814,20 @@ func ruleR10_7(w *World, r *Report) {
 			}
 		}
 	})
+	// ... taken after both halves were imported
+	for _, c := range callsIn(fn) {
+		if calleeName(c) != "ResetTransaction" {
+			continue
+		}
+		for _, o := range callsIn(fn) {
+			if n := calleeName(o); n == "SetMeta" || n == "Unmarshal" || n == "SetSnapshot" {
+				if reachableFrom(c.(ssa.Instruction), o.(ssa.Instruction)) {
+					good = false
+					detail = "ResetTransaction runs before " + n + ": the rollback point carries the imported identifiers but the state from before the import"
+				}
+			}
+		}
+	}
 	r.Check(good && n > 0, "SnapshotDatatype.SetMetaAndSnapshot/new rollback point", u.Pos(fn.Pos()), "ResetTransaction on every error-free path", detail+": the rollback point still describes the instance before the import, and the first failed transaction brings that back (F28)")
 }
 
@@ -870,7 +892,17 @@ func ruleR19_7(w *World, r *Report) {
 		return
 	}
 	n := 0
-	for _, c := range callsNamed(fn, "getTargetFromPatch") {
+	resolvers := callsNamed(fn, "getTargetFromPatch")
+	if len(resolvers) == 0 {
+		// renamed: the resolver is the call that yields (node, key, error) from (node, path)
+		for _, c := range callsIn(fn) {
+			res := c.Common().Signature().Results()
+			if res.Len() == 3 && strings.HasSuffix(res.At(0).Type().String(), ".jsonType") && res.At(1).Type().String() == "string" {
+				resolvers = append(resolvers, c)
+			}
+		}
+	}
+	for _, c := range resolvers {
 		n++
 		_, args := recvAndArgs(c)
 		good := false
@@ -1403,4 +1435,108 @@ func ruleR09_10(w *World, r *Report) {
 		}
 	}
 	r.Check(good, "WiredDatatype.ApplyPushPullPack/checkpoint after completeness check", u.Pos(sync.Pos()), "units checked before the checkpoint moves", "the checkpoint is advanced before the received operations are examined: a response that ends inside a transaction unit is refused by ReceiveRemoteModelOperations, but its positions are already consumed, so the rest of the unit arrives with the next pull and is applied alone")
+}
+
+// ---------------------------------------------------------------------------------------------
+// Round 5
+
+// R07.4 the push buffer is only appended to or reset as a whole
+func ruleR07_4(w *World, r *Report) {
+	u := w.Client()
+	r.Rule("R07.4", "the buffer of operations waiting to be pushed (WiredDatatype.localBuffer) is only appended to by DeliverTransaction and reset as a whole by the constructor, ResetWired and the subscribe reset; nothing trims it by a checkpoint (what is sent is chosen by position at send time, so a stale response can never drop unpushed operations)", 3)
+	allowed := map[string]string{
+		"NewWiredDatatype":                    "constructor",
+		"WiredDatatype.ResetWired":            "reset",
+		"WiredDatatype.DeliverTransaction":    "append",
+		"WiredDatatype.updateStateOfDatatype": "subscribe reset",
+	}
+	n := 0
+	for _, fn := range u.ordaFuncs(func(p string) bool { return p == pDatatypes || p == pOrda || p == pCManagers }) {
+		if flattenable[fn] {
+			continue
+		}
+		for _, st := range storesTo(fn, ".localBuffer") {
+			owner, fld, base, ok := storeField(st.Addr)
+			if !ok || owner != "WiredDatatype" || fld != "localBuffer" {
+				continue
+			}
+			n++
+			name := fnName(fn)
+			kind, known := allowed[name]
+			if isFreshBase(base) {
+				kind, known = "constructor", true
+			}
+			good := known
+			val := canonName(st.Val)
+			switch kind {
+			case "append":
+				good = good && strings.HasPrefix(val, "append($0.localBuffer,")
+			case "reset", "subscribe reset", "constructor":
+				_, isMake := st.Val.(*ssa.MakeSlice)
+				_, isSlice := st.Val.(*ssa.Slice)
+				good = good && (isMake || isSlice) && !strings.Contains(val, "localBuffer")
+			}
+			r.Check(good, name+"/writes the push buffer", u.Pos(st.Pos()), kind, "the push buffer is written by "+name+" as "+val+": only DeliverTransaction (append) and the whole-buffer resets may change it; trimming it (for instance by the checkpoint of a response, which may be stale) drops operations that were never pushed")
+		}
+	}
+	if n < 3 {
+		r.Lost("writers of WiredDatatype.localBuffer")
+	}
+}
+
+// R03.13 the recursive null test visits every element of a container
+func ruleR03_13(w *World, r *Report) {
+	u := w.Client()
+	r.Rule("R03.13", "the recursive null test of Document values answers 'no null' only after it has looked at the whole value: a constant false is returned only under tests of the value's kind, loop exits and the answers of its own recursive calls - never under a shortcut on element types", 1)
+	n := 0
+	for _, fn := range u.ordaFuncs(func(p string) bool { return p == pOrda || p == pTypes }) {
+		if !isNullPredicate(fn) {
+			continue
+		}
+		recursive := false
+		for _, c := range callsIn(fn) {
+			if staticCallee(c) == fn {
+				recursive = true
+			}
+		}
+		if !recursive {
+			continue
+		}
+		n++
+		bad := ""
+		forEachOwnInstr(fn, func(in ssa.Instruction) {
+			ret, ok := in.(*ssa.Return)
+			if !ok || len(ret.Results) != 1 {
+				return
+			}
+			isFalse := false
+			for _, v := range resolvePhisOwn(ret.Results[0]) {
+				if c, isC := v.(*ssa.Const); isC && c.Value != nil && c.Value.Kind() == constant.Bool && !constant.BoolVal(c.Value) {
+					isFalse = true
+				}
+			}
+			if !isFalse {
+				return
+			}
+			paths, _ := reachingLitsOwn(fn, nil, ret)
+			for _, p := range paths {
+				for _, l := range p {
+					s := renderLit(l)
+					switch {
+					case strings.Contains(s, ".Kind()") && !strings.Contains(s, "Elem()") && !strings.Contains(s, "Type()"):
+					case strings.Contains(s, "φ") || strings.Contains(s, "len(") || strings.Contains(s, ".Len()"):
+					case strings.Contains(s, fn.Name()+"("):
+					case strings.Contains(s, "Next("):
+					case strings.Contains(s, "StructToMap") || strings.Contains(s, "== nil") || strings.Contains(s, "!= nil"):
+					default:
+						bad = s
+					}
+				}
+			}
+		})
+		r.Check(bad == "", fnName(fn)+"/no shortcut", u.Pos(fn.Pos()), "false only after the whole value was visited", "the null test answers 'no null' under "+bad+": part of the value is never looked at (e.g. a slice whose element type is not an interface), and a null nested there panics in reflect after the operation identifier was taken")
+	}
+	if n < 1 {
+		r.Lost("the recursive null test of Document values (hasNullValue)")
+	}
 }
